@@ -33,11 +33,20 @@ func (env *Env) setupExt() error {
 	switch env.Prog.Cfg.Stack {
 	case "none":
 		return nil
+	case "m3", "m3direct":
+		return env.setupM3()
+	case "transport":
+		return env.setupTransport()
+	case "prom":
+		return env.setupProm()
 	}
 	return fmt.Errorf("unknown stack %q", env.Prog.Cfg.Stack)
 }
 
-func (env *Env) teardownExt() {}
+func (env *Env) teardownExt() {
+	env.teardownM3()
+	env.teardownTransport()
+}
 
 func (te *taskEnv) execExt(op *Op, rec *OpRec) bool {
 	switch op.K {
@@ -52,6 +61,10 @@ func (te *taskEnv) execExt(op *Op, rec *OpRec) bool {
 	case "san":
 		te.execSan(op, rec)
 		return true
+	default:
+		if te.execM3(op, rec) || te.execTransport(op, rec) || te.execProm(op, rec) {
+			return true
+		}
 	}
 	return false
 }
